@@ -181,7 +181,7 @@ fn cross_case(cfg: Cfg, seeded: bool) -> Box<dyn Case> {
         let built = build_cached::<P>(&cfg, &wit).honest();
         let rst = ref_statement_indep(&built.statement);
         // library prover -> reference verifier (+ reference mask recovery)
-        let proof = lib_prove(&built, &ctx, &mut HRng::chacha(12)).honest();
+        let proof = lib_prove_honest(&built, &ctx, &mut HRng::chacha(12));
         let bytes = P::to_bytes(&proof);
         res.executions += 1;
         match refbp::ref_decode_allow_zero_rounds(&bytes) {
